@@ -417,6 +417,16 @@ func (e *MetaExecutor) CreateIterator(nodeID uint64, shardIDs []uint64, ctx cont
 		return nil, err
 	}
 
+	// The remote node produced no iterator: none of the requested shards has the
+	// measurement or the field. Return no iterator instead of a typed placeholder.
+	// A merge takes the data type of its first input and drops inputs of any other
+	// type, so a float placeholder that happens to arrive first would silently
+	// discard the integer, string and boolean iterators of all other nodes.
+	if resp.Type == influxql.Unknown {
+		conn.Close()
+		return nil, nil
+	}
+
 	return query.NewReaderIterator(ctx, conn, resp.Type, resp.Stats), nil
 }
 
